@@ -8,10 +8,13 @@
    the string (C12_composite_flat), and every base sequence ends with its old constraint
    intersected, in order, with each slice that lands on one of its occurrences, reverse
    complemented for starred occurrences, everything else untouched (C12_composite_positions).
-   Signals through nested systems and the warning path are the model's fix_signal / fix_at, tied
-   to the code by correspondence and checked per case against the per-nucleotide oracle. *)
+   At system level the "changes nothing else" clause is proved for the model's fix_signal / fix_at
+   (FixFrame): fixing a signal keeps the system's own tables and instance names and can only change the
+   instances named in the signal's bindings; a fix through a qualified name changes only the addressed
+   instance.  Which string reaches which port through nested systems (the star rule) and the warning
+   path are tied to the code by correspondence and checked per case against the per-nucleotide oracle. *)
 From Coq Require Import List String Ascii Arith Bool.
-From PC Require Import Base.Codes Comp.Syntax Comp.Compile Comp.EmitProofs Comp.Fix Comp.FixProofs Comp.FixComposite.
+From PC Require Import Base.Codes Comp.Syntax Comp.Compile Comp.EmitProofs Comp.Fix Comp.FixProofs Comp.FixComposite Sys.System Sys.FixFrame.
 Import ListNotations.
 
 Theorem C12_position_is_intersection : forall old fixed k, List.length old = List.length fixed -> inter_consts old fixed = (k, FOk) ->
@@ -62,3 +65,34 @@ Theorem C12_composite_positions : forall l bs fixed bs', fix_brefs bs l fixed = 
             end.
 Proof. exact fix_brefs_spec. Qed.
 Print Assumptions C12_composite_positions.
+
+(* system level: a signal fix / a qualified fix changes nothing but the instances it addresses *)
+Theorem C12_signal_fix_changes_nothing_else : forall f o name fixed o' st, fix_signal f o name fixed = (o', st) ->
+  frame o o' (fun cn => exists entries l wc, (match o with OSys _ _ sigs _ _ _ => afind sigs name | OComp _ => None end) = Some entries /\ In (l, cn, wc) entries).
+Proof. exact fix_signal_frame. Qed.
+Print Assumptions C12_signal_fix_changes_nothing_else.
+
+Theorem C12_qualified_fix_changes_nothing_else : forall f p comps sigs lens i oo name k o' st,
+  fix_at (S f) (OSys p comps sigs lens i oo) name k = (o', st) ->
+  exists comps', o' = OSys p comps' sigs lens i oo /\ map fst comps' = map fst comps /\
+    forall cn, (forall rest, first_dash name <> Some (cn, rest)) -> afind comps' cn = afind comps cn.
+Proof. exact fix_at_frame. Qed.
+Print Assumptions C12_qualified_fix_changes_nothing_else.
+
+(* the star rule through nesting: every starred level reverse-complements the string once; two cancel *)
+Theorem C12_nested_binding_star_rule : forall f p comps sigs lens i oo name s cname (wc : bool) sub fixed fx,
+  afind sigs name = Some [(LSig s, cname, wc)] -> afind comps cname = Some sub ->
+  (if wc then wc_codes fixed else Some fixed) = Some fx ->
+  fix_signal (S f) (OSys p comps sigs lens i oo) name fixed =
+  (OSys p (upd comps cname (fst (fix_signal f sub s fx))) sigs lens i oo, snd (fix_signal f sub s fx)).
+Proof. exact fix_signal_nested_single. Qed.
+Print Assumptions C12_nested_binding_star_rule.
+
+Theorem C12_double_star_cancels : forall f p comps sigs lens i oo name s cname p2 comps2 sigs2 lens2 i2 oo2 s2 cname2 sub2 fixed w,
+  afind sigs name = Some [(LSig s, cname, true)] -> afind comps cname = Some (OSys p2 comps2 sigs2 lens2 i2 oo2) ->
+  afind sigs2 s = Some [(LSig s2, cname2, true)] -> afind comps2 cname2 = Some sub2 ->
+  wc_codes fixed = Some w ->
+  fix_signal (S (S f)) (OSys p comps sigs lens i oo) name fixed =
+  (OSys p (upd comps cname (OSys p2 (upd comps2 cname2 (fst (fix_signal f sub2 s2 fixed))) sigs2 lens2 i2 oo2)) sigs lens i oo, snd (fix_signal f sub2 s2 fixed)).
+Proof. exact double_star_cancels. Qed.
+Print Assumptions C12_double_star_cancels.
